@@ -25,5 +25,6 @@ run rockredis zz_fix_c07_test.go TestZZHClearSameLogSameResult
 run rockredis zz_fix_c07b_test.go TestZZZFixKeySameLogSameResult
 run transport/rafthttp zz_fix_c16_test.go TestZZMsgAppV2CorruptLength
 run engine zz_fix_c14_pebble_test.go TestFindC14PebbleCheckpointContainsLaterWrites
+run engine zz_fix_c20_seekforprev_test.go TestFindC20Reverse
 rm -rf "$T"
 exit $rc
